@@ -157,10 +157,10 @@ func shrinkCandidates(sc *Scenario) []*Scenario {
 			add(func(c *Scenario) bool { c.Argv = append(c.Argv[:i:i], c.Argv[i+1:]...); return true })
 		}
 	}
-	// raw file data: drop halves, then single lines
+	// raw file data: drop halves, then single lines (not when the oracle's verdict hangs on the exact bytes)
 	for i := range sc.Files {
 		f := &sc.Files[i]
-		if len(f.Docs) > 0 || f.Dir || f.Missing || len(f.Data) == 0 {
+		if len(f.Docs) > 0 || f.Dir || f.Missing || len(f.Data) == 0 || sc.MetaBool("freeze_data") {
 			continue
 		}
 		i := i
